@@ -37,8 +37,8 @@ ASSUMPTIONS = [
     "reference; beyond that bound nothing is claimed",
 ]
 BOUNDS = {
-    "quick": "19 cover prefixes x 8 suffixes x 1 symbolic character (all of the alphabet at once)",
-    "thorough": "19 cover prefixes x 8 suffixes x 2 symbolic characters, plus every text of <= 4 symbolic characters from the initial state",
+    "quick": "19 cover prefixes x 10 suffixes x 1 symbolic character (all of the alphabet at once)",
+    "thorough": "19 cover prefixes x 10 suffixes x 2 symbolic characters, plus every text of <= 4 symbolic characters from the initial state",
 }
 EXPLANATION = (
     "For every (access text of a reference lexical state, characterising suffix) pair the text prefix + m symbolic characters + "
@@ -82,6 +82,9 @@ SUFFIX = [
     ("hash", "\n#y\nz\n"),
     ("splice", BS + "\nq\n"),
     ("star-slash-code", "*/x" + BS + "\ny\n#z\n"),
+    # a '/' at the start of the next line must not pair with a '*' that ended the previous line of a block comment
+    ("slash-nl-close", "/\nq\n*/\nh\n"),
+    ("quote-then-close", '"\n*/ k\n"s"\n'),
 ]
 
 
